@@ -28,10 +28,14 @@
 (*                  halts the search only if it is still the awaited one   *)
 (*                  (TRUE) / the timer goroutine halts whatever search is  *)
 (*                  active when it fires (FALSE)                           *)
+(*   AtomicClaim    a completion claims the answer by compare-and-swap     *)
+(*                  (TRUE) / test, answer, then clear (FALSE)              *)
 (***************************************************************************)
 EXTENDS Integers, Sequences, FiniteSets, TLC
 
 CONSTANTS MaxCmds, NS, MaxDepth, IdGuard, StopOnOk, ShutdownWaits, TimerInLoop,
+          AtomicClaim, \* the completion claims the answer with one compare-and-swap (TRUE) / tests the flag, answers, and
+                       \* clears the flag afterwards (FALSE: two completers can both answer)
           OutCap     \* capacity of the output channel (lines the GUI has not read yet); 0 = sends never block
 
 K == 1..NS
@@ -138,13 +142,14 @@ EngineHalt ==
 StopDone ==
   /\ lpc = "stopdone"
   /\ IF haltOk = StopOnOk /\ active = Token(cur) /\ cur # 0
-       THEN active' = 0 /\ lpc' = "stopsend" /\ Decide(cur)
+       THEN active' = (IF AtomicClaim THEN 0 ELSE active) /\ lpc' = "stopsend" /\ Decide(cur)
        ELSE lpc' = "select" /\ UNCHANGED <<active, bestSeq>>
   /\ UNCHANGED <<lcmd, ncmd, nsearch, eact, S, F, pond, outClosed, panic, best, ready, asked, cur, haltOk, timer, tmq, superseded, stopped, outq>>
 
 StopSend ==
   /\ lpc = "stopsend" /\ Send(cur) /\ lpc' = "select"
-  /\ UNCHANGED <<lcmd, ncmd, nsearch, active, eact, S, F, pond, outClosed, bestSeq, ready, asked, cur, haltOk, timer, tmq, superseded, stopped>>
+  /\ active' = (IF AtomicClaim THEN active ELSE 0)      \* the late clear of the non-atomic claim
+  /\ UNCHANGED <<lcmd, ncmd, nsearch, eact, S, F, pond, outClosed, bestSeq, ready, asked, cur, haltOk, timer, tmq, superseded, stopped>>
 
 Analyze ==
   /\ lpc = "analyze"
@@ -241,13 +246,14 @@ FwdPonder(k) ==
 FwdCas(k) ==
   /\ F[k].pc = "cas"
   /\ IF active = Token(k) /\ active # 0
-       THEN active' = 0 /\ F' = [F EXCEPT ![k].pc = "send"] /\ Decide(k)
+       THEN active' = (IF AtomicClaim THEN 0 ELSE active) /\ F' = [F EXCEPT ![k].pc = "send"] /\ Decide(k)
        ELSE UNCHANGED <<active, bestSeq>> /\ F' = [F EXCEPT ![k].pc = "exit"]
   /\ UNCHANGED <<lpc, lcmd, ncmd, nsearch, eact, S, pond, outClosed, panic, best, ready, asked, cur, haltOk, timer, tmq, superseded, stopped, outq>>
 
 FwdSend(k) ==
   /\ F[k].pc = "send" /\ Send(k) /\ F' = [F EXCEPT ![k].pc = "exit"]
-  /\ UNCHANGED <<lpc, lcmd, ncmd, nsearch, active, eact, S, pond, outClosed, bestSeq, ready, asked, cur, haltOk, timer, tmq, superseded, stopped>>
+  /\ active' = (IF AtomicClaim THEN active ELSE 0)
+  /\ UNCHANGED <<lpc, lcmd, ncmd, nsearch, eact, S, pond, outClosed, bestSeq, ready, asked, cur, haltOk, timer, tmq, superseded, stopped>>
 
 Done == lpc = "exited" \/ (lpc = "select" /\ ncmd = MaxCmds)
 Idle == Done /\ UNCHANGED vars
